@@ -481,8 +481,9 @@ class VirtualFileSystem(FileSystem[str]):
             # Match whole folder names only, "materials" must not include "materials2/...".
             folder += '/'
 
-        for filename, data in self._mapping.values():
-            if filename.startswith(folder):
+        # The folder was case-folded by _clean_path(), so compare with the folded keys.
+        for key, (filename, data) in self._mapping.items():
+            if key.startswith(folder):
                 yield File(self, filename, filename)
 
     def _file_exists(self, name: str) -> bool:
